@@ -21,6 +21,8 @@ the real code.
 -/
 import Golib.Proof.C09Top
 import Golib.Proof.C09EncInv
+import Golib.Proof.C09Dec
+import Golib.Proof.C09Arena
 import Golib.Proof.C08AesInv
 import Golib.Proof.C08GcmInv
 import Golib.Model.C09
@@ -68,7 +70,7 @@ theorem c09_cbc_envelope_roundtrip (P : Prims) (hmd : ∀ x, (P.md5 x).length = 
     (hE : ∀ k, keyOK k = true → IsBytes k → ∀ x, x.length = 16 → IsBytes x →
       (P.C.E k x).length = 16 ∧ IsBytes (P.C.E k x))
     (hDE : ∀ k, keyOK k = true → IsBytes k → ∀ x, x.length = 16 → IsBytes x → P.C.D k (P.C.E k x) = x)
-    (hb64 : ∀ x, IsBytes x → P.b64dec (P.b64enc x) = some x)
+    (hb64 : ∀ x, IsBytes x → base64DecodeW P.b64raw (P.b64enc x) = .ok x)
     (salt pt secret : Bytes) (hs : salt.length = 8) (hsb : IsBytes salt) (hptb : IsBytes pt)
     (reuse : Bool) :
     (∃ m, encrypt P salt pt secret = .ok m ∧ decrypt P m secret = .ok pt) ∧
@@ -141,7 +143,7 @@ theorem c09_gcm_envelope_roundtrip (P : Prims) (hmd : ∀ x, (P.md5 x).length = 
       IsBytes (P.A.sealF k n p a))
     (hopen : ∀ k, keyOK k = true → ∀ n p a, P.A.openF k n (P.A.sealF k n p a) a = some p)
     (hopenlen : ∀ k, keyOK k = true → ∀ n c a p, P.A.openF k n c a = some p → c.length = p.length + 16)
-    (hhex : ∀ x, IsBytes x → P.hexdec (P.hexenc x) = some x)
+    (hhex : ∀ x, IsBytes x → hexDecodeW (P.hexenc x) = .ok x)
     (salt pt secret ad : Bytes) (hs : salt.length = 8) (hsb : IsBytes salt) (hptb : IsBytes pt)
     (reuse : Bool) :
     (∃ m, gcmEncrypt P salt pt secret ad = .ok m ∧ gcmDecrypt P m secret ad = .ok pt) ∧
@@ -172,6 +174,7 @@ for every reader and writer, failing ones included, in either header-read mode.)
 theorem c09_decrypt_total (P : Prims) (hmd : ∀ x, (P.md5 x).length = 16)
     (hD : ∀ k, keyOK k = true → ∀ x, x.length = 16 → (P.C.D k x).length = 16)
     (hopenlen : ∀ k, keyOK k = true → ∀ n c a p, P.A.openF k n c a = some p → c.length = p.length + 16)
+    (hb64len : ∀ s, (P.b64raw s).1.length ≤ s.length / 4 * 3)
     (input secret ad : Bytes) (reuse : Bool) (mode : HeaderRead) (r : Reader) (out : Writer) :
     decrypt P input secret ≠ .panic ∧
     saltBySecretCBCDecrypt P input secret reuse ≠ .panic ∧
@@ -182,13 +185,17 @@ theorem c09_decrypt_total (P : Prims) (hmd : ∀ x, (P.md5 x).length = 16)
     saltBySecretGCMDecrypt_total P hmd hopenlen input secret ad reuse,
     decryptStreamTo_total P hmd mode secret r out⟩
   · unfold decrypt
-    cases P.b64dec input with
-    | none => simp
-    | some src => exact saltBySecretCBCDecrypt_total P hmd hD src secret true
+    have := base64DecodeW_total P.b64raw hb64len input
+    cases hb : base64DecodeW P.b64raw input with
+    | panic => exact absurd hb this
+    | err e => simp
+    | ok src => exact saltBySecretCBCDecrypt_total P hmd hD src secret true
   · unfold gcmDecrypt
-    cases P.hexdec input with
-    | none => simp
-    | some src => exact saltBySecretGCMDecrypt_total P hmd hopenlen src secret ad true
+    have := hexDecodeW_total input
+    cases hb : hexDecodeW input with
+    | panic => exact absurd hb this
+    | err e => simp
+    | ok src => exact saltBySecretGCMDecrypt_total P hmd hopenlen src secret ad true
 
 /-- CTR output does not depend on how the data is cut into chunks: processing `a ++ b` at
 position `pos` is processing `a` at `pos` and `b` at `pos + |a|`; applying it twice is the
@@ -233,8 +240,9 @@ theorem c09_instance_meets_hypotheses (s0 s1 : Bytes) (n : Nat) :
     (∀ k, keyOK k = true → IsBytes k → ∀ n p a, IsBytes n → IsBytes p → IsBytes (P.A.sealF k n p a)) ∧
     (∀ k, keyOK k = true → ∀ n p a, P.A.openF k n (P.A.sealF k n p a) a = some p) ∧
     (∀ k, keyOK k = true → ∀ n c a p, P.A.openF k n c a = some p → c.length = p.length + 16) ∧
-    (∀ x, IsBytes x → P.b64dec (P.b64enc x) = some x) ∧
-    (∀ x, IsBytes x → P.hexdec (P.hexenc x) = some x) :=
+    (∀ x, IsBytes x → base64DecodeW P.b64raw (P.b64enc x) = .ok x) ∧
+    (∀ x, IsBytes x → hexDecodeW (P.hexenc x) = .ok x) ∧
+    (∀ s, (P.b64raw s).1.length ≤ s.length / 4 * 3) :=
   ⟨md5_length, md5_bytes,
    fun k hk hkb x hx hxb => aes_encrypt_block k x hk hkb hx hxb,
    fun k hk hkb x hx hxb => aes_decrypt_encrypt k x hk hkb hx hxb,
@@ -243,7 +251,7 @@ theorem c09_instance_meets_hypotheses (s0 s1 : Bytes) (n : Nat) :
    fun k hk hkb n p a hn hp => gcm_seal_bytes k n p a hk hkb hn hp,
    fun k hk n p a => gcm_open_seal k n p a hk,
    fun k hk n c a p h => gcm_open_length k n c a p hk h,
-   b64_decode_encode, hex_decode_encode⟩
+   base64DecodeW_encode, hexDecodeW_encode, b64DecodeRaw_len⟩
 
 /-- `Decrypt(Encrypt(p, s), s) = p` and `GCMDecrypt(GCMEncrypt(p, s, a), s, a) = p` for the
 oracle's own model, no hypothesis about any primitive left: every plaintext, secret, additional
@@ -259,7 +267,7 @@ theorem c09_envelope_roundtrip_concrete (s0 s1 : Bytes) (n : Nat)
     (∃ c, saltBySecretGCMEncrypt P salt pt secret ad = .ok c ∧
       saltBySecretGCMDecrypt P c secret ad reuse = .ok pt) := by
   intro P
-  obtain ⟨h1, h2, h3, h4, _, h6, h7, h8, h9, h10, h11⟩ := c09_instance_meets_hypotheses s0 s1 n
+  obtain ⟨h1, h2, h3, h4, _, h6, h7, h8, h9, h10, h11, _⟩ := c09_instance_meets_hypotheses s0 s1 n
   have hc := c09_cbc_envelope_roundtrip P h1 h2 h3 h4 h10 salt pt secret hs hsb hptb reuse
   have hg := c09_gcm_envelope_roundtrip P h1 h2 h6 h7 h8 h9 h11 salt pt secret ad hs hsb hptb reuse
   exact ⟨hc.1, hc.2, hg.1, hg.2⟩
@@ -275,8 +283,8 @@ theorem c09_decrypt_total_concrete (s0 s1 : Bytes) (n : Nat)
     saltBySecretGCMDecrypt P input secret ad reuse ≠ .panic ∧
     decryptStreamTo P mode secret r out ≠ .panic := by
   intro P
-  obtain ⟨h1, _, _, _, h5, _, _, _, h9, _, _⟩ := c09_instance_meets_hypotheses s0 s1 n
-  exact c09_decrypt_total P h1 h5 h9 input secret ad reuse mode r out
+  obtain ⟨h1, _, _, _, h5, _, _, _, h9, _, _, h12⟩ := c09_instance_meets_hypotheses s0 s1 n
+  exact c09_decrypt_total P h1 h5 h9 h12 input secret ad reuse mode r out
 
 /-- What the HISTORY stream of the tie instantiates (header `hist`: the harness keeps the key /
 secret, iv / nonce, additional data and dst of all calls of a case in the SAME backing arrays
@@ -316,6 +324,42 @@ theorem c09_arena_value_semantics (pre ops : List String) :
   have : pre.length = (pre.map fun l => step (Golib.Proto.toks l)).length := by simp
   rw [this, List.drop_left]
 
+open Golib.C08.Arena Golib.C09.Arena in
+/-- INPUTS UNCHANGED (buffer level, `Model/C09Arena.lean`).  (1) Of all memory-writing statements
+of all ten entry points — read off `crypt.go` into `footprint` — the only ones that target memory
+of the caller are the final decryption of `SaltBySecretCBCDecrypt` / `SaltBySecretGCMDecrypt`
+with `reuseCipherText = true`, and they target the ciphertext argument behind its 16-byte header;
+every other destination is a `make`, a local array or a buffer of the standard library: secret,
+additional data, plaintext, the encoded message of `Decrypt`/`GCMDecrypt` (decoded into a fresh
+buffer, which is then the one reused) are never written.  (2) Those two, run over the caller's
+arena with the C08 arena model (`dst = cipherText[16:]`, key and iv/nonce in the local `cred`
+array): whatever the outcome, every logged write lies inside `cipherText[16:]` and every other
+cell of the arena keeps its content.  This is what the harness's arena snapshot check tests on
+the real code after every call. -/
+theorem c09_inputs_unchanged (P : Prims) (hmd : ∀ x, (P.md5 x).length = 16)
+    (hD : ∀ k, keyOK k = true → ∀ x, x.length = 16 → (P.C.D k x).length = 16)
+    (hopenlen : ∀ k, keyOK k = true → ∀ n c a p, P.A.openF k n c a = some p → c.length = p.length + 16) :
+    (∀ n e, ∀ t ∈ footprint n e, t.isFresh = true ∨
+      (e = .saltCBCDecrypt true ∧ t = .input 16 (n - 16)) ∨
+      (e = .saltGCMDecrypt true ∧ t = .input 16 (n - 16 - 16))) ∧
+    (∀ (m : Mem) (ct : Win) (secret : Bytes), ct.wf m →
+      WritesWithin m (saltBySecretCBCDecryptA P m ct secret).1 (ct.off + 16) (ct.off + ct.len)) ∧
+    (∀ (m : Mem) (ct ad : Win) (secret : Bytes), ct.wf m →
+      WritesWithin m (saltBySecretGCMDecryptA P m ct secret ad).1 (ct.off + 16) (ct.off + ct.len)) :=
+  ⟨footprint_spec,
+   fun m ct secret h => saltCBCDecryptA_writes_within P m ct secret hmd h hD,
+   fun m ct ad secret h => saltGCMDecryptA_writes_within P m ct ad secret hmd h hopenlen⟩
+
+open Golib.C08.Arena Golib.C09.Arena in
+/-- `c09_inputs_unchanged`, part (2), for the oracle's own primitives: no hypothesis left. -/
+theorem c09_inputs_unchanged_concrete (s0 s1 : Bytes) (n : Nat) (m : Mem) (ct ad : Win) (secret : Bytes)
+    (h : ct.wf m) :
+    WritesWithin m (saltBySecretCBCDecryptA (primsFor s0 s1 n) m ct secret).1 (ct.off + 16) (ct.off + ct.len) ∧
+    WritesWithin m (saltBySecretGCMDecryptA (primsFor s0 s1 n) m ct secret ad).1 (ct.off + 16) (ct.off + ct.len) := by
+  obtain ⟨h1, _, _, _, h5, _, _, _, h9, _, _, _⟩ := c09_instance_meets_hypotheses s0 s1 n
+  have := c09_inputs_unchanged (primsFor s0 s1 n) h1 h5 h9
+  exact ⟨this.2.1 m ct secret h, this.2.2 m ct ad secret h⟩
+
 /-- The facts the model hard-codes, against `Golib/Gen/FactsC09.lean`, which the go/ast
 extractor regenerates from `cryptz/crypt.go` on every run — above all WHICH call fills the
 16-byte header in `DecryptStreamTo`: the theorems above are about `io.ReadFull`
@@ -326,8 +370,13 @@ theorem c09_facts_match_model :
     Gen.C09.headerBufLen = aesBlockSize ∧ Gen.C09.saltLen = saltLen ∧ Gen.C09.keyLen = keyLen ∧
     Gen.C09.credLen = credLen ∧ Gen.C09.fixedSaltHeader = fixedSaltHeader ∧
     Gen.C09.credRounds = 3 ∧ Gen.C09.saltLen + Gen.C09.saltLen = aesBlockSize ∧
-    Gen.C09.keyLen + aesBlockSize = Gen.C09.credLen := by
-  decide
+    Gen.C09.keyLen + aesBlockSize = Gen.C09.credLen ∧
+    -- the decode wrappers that `base64DecodeW` / `hexDecodeW` mirror, statement by statement
+    Gen.C09.base64DecodeBody = "dst := make([]byte, enc.DecodedLen(len(s))); n, err := enc.Decode(dst, UnsafeStrOrBytesToBytes(s)); return dst[:n], err" ∧
+    Gen.C09.hexDecodeBody = "dst := make([]byte, hex.DecodedLen(len(s))); n, err := hexDecode(dst, s); return dst[:n], err" ∧
+    Gen.C09.decryptDecodeCall = "strz.Base64Decode(cipherText, base64.StdEncoding)" ∧
+    Gen.C09.gcmDecryptDecodeCall = "strz.HexDecode(cipherText)" := by
+  decide +kernel
 
 /-! ### Non-vacuity -/
 
@@ -339,7 +388,7 @@ def toyPrims : Prims :=
     A := { sealF := fun _ _ p _ => p ++ List.replicate 16 0,
            openF := fun _ _ c _ => if 16 ≤ c.length then some (c.take (c.length - 16)) else none },
     KS := fun k _ p => k.getD (p % 32) 0 + p,
-    b64enc := id, b64dec := some, hexenc := id, hexdec := some }
+    b64enc := id, b64raw := fun _ => ([], false), hexenc := id }
 
 example : ∀ x, (toyPrims.md5 x).length = 16 := by intro x; simp [toyPrims]
 
